@@ -89,4 +89,8 @@ theorem shared_cell_interferes :
 theorem live_scratch_is_thread_local : Gen.sharedScratch = [] := by decide
 theorem live_no_shared_writes : Gen.sharedWritesAfterImport = [] := by decide
 
+/-- …nor does it change any module-level or class-level container, `functools` cache, mutable default
+    argument, closure cell or function attribute of the schwifty modules (state every thread shares). -/
+theorem live_no_module_state_writes : Gen.moduleStateWrites = [] := by decide
+
 end SV.Props.C14
